@@ -37,6 +37,10 @@ from collections import deque
 
 NAMES = "abcd"
 LINKED, EVALUATING, ASYNC, EVALUATED = 0, 1, 2, 3
+# where the emulated engine assertions live (only used by the defect emulations)
+LOC_REJECT = "engine/src/module/source.rs:2205"
+LOC_GAA_STATUS = "engine/src/module/source.rs:1565"
+LOC_GAA_PENDING = "engine/src/module/source.rs:1568"
 
 
 class Abrupt(Exception):
@@ -185,7 +189,8 @@ class World:
             self.cap[m] = cap
         try:
             if self.perturb == "rerun" and self.status[m] == EVALUATED and self.error[m] is None:
-                self.status[m] = LINKED
+                self.status[m] = LINKED      # perturbation: forget that the module has been evaluated
+                self.order[m] = None
             self.inner(m, stack, 0)
         except Abrupt as a:
             for x in stack:
@@ -290,7 +295,7 @@ class World:
                     if "rejectwrong" in self.bugs:
                         # engine: AsyncModuleExecutionRejected is called on the module that just
                         # FULFILLED instead of on x -> its "evaluated => has an error" assertion fires
-                        raise EnginePanic("assertion failed: error.is_some()")
+                        raise EnginePanic(LOC_REJECT + " assertion failed: error.is_some()")
                     self.async_rejected(x, a.v)
                 else:
                     self.order[x] = "done"
@@ -306,9 +311,9 @@ class World:
             if p not in exec_list and self.error[root] is None:
                 if self.bugs:
                     if self.status[p] != ASYNC:
-                        raise EnginePanic("internal error: entered unreachable code: i. Assert: m.[[Status]] is evaluating-async.")
+                        raise EnginePanic(LOC_GAA_STATUS + " internal error: entered unreachable code: i. Assert: m.[[Status]] is evaluating-async.")
                     if self.pending[p] <= 0:
-                        raise EnginePanic("assertion failed: *pending_async_dependencies > 0")
+                        raise EnginePanic(LOC_GAA_PENDING + " assertion failed: *pending_async_dependencies > 0")
                 _ck(self.status[p] == ASYNC and self.error[p] is None and isinstance(self.order[p], int), "GAA 1.a.i-iii")
                 _ck(self.pending[p] > 0, "GAA 1.a.iv")
                 self.pending[p] -= 1
